@@ -18,6 +18,7 @@ func C19(c *Ctx) {
 	c.c19Confirm()
 	c.c19Whitelist()
 	c.c19Rules()
+	c.readerVerbatim("C19.reader")
 }
 
 func (c *Ctx) c19Post() {
